@@ -121,7 +121,7 @@ def judge(args):
     case, seed = args
     g = G.Gamma(seed)
     cfg = case["cfg"]
-    i = {"doc": "one", "params": case["ps"], "ret": {"typ": "none", "def": "absent", "doc": "absent"}}
+    i = {"doc": case.get("idoc", "one"), "params": case["ps"], "ret": {"typ": "none", "def": "absent", "doc": "absent"}}
     salt = conv.salt_of({"cfg": cfg, "i": i}, seed)
     ir = g.iface(i, salt)
     names = list(ir["params"].keys())
@@ -254,10 +254,10 @@ def check(run, replay=None):
             case = cases[n]
             n += 1
             run.replayed += 1
-            key = json.dumps([case["cfg"], case["ps"]], sort_keys=True)
+            key = json.dumps([case["cfg"], case.get("idoc"), case["ps"]], sort_keys=True)
             for d in case["devs"]:
                 run.trigger(d)
-            label = "{} {}".format(case["cfg"], ",".join("{}/{}".format(p["typ"], p["def"]) for p in case["ps"]))
+            label = "{} doc={} {}".format(case["cfg"], case.get("idoc"), ",".join("{}/{}/{}".format(p["typ"], p["def"], p["doc"]) for p in case["ps"]))
             if not res["diffs"]:
                 run.held(key)
                 if any(case["wild"]):
